@@ -15,7 +15,7 @@ obligations (`Ural.Props.C15.redirect_patterns_shape`) pin the frame
 `(?:^|[?&])(` keys `)=([^&]+)`, the flags, and the alphabet of the literals.
 
 The function first cleans its argument the way the url functions clean their input
-(`cleanUrl` = `CONTROL_CHARS_RE.sub("", url).strip()`, lines 40-43) and looks for its hints in
+(`cleanedUrl` = `CONTROL_CHARS_RE.sub("", url).strip()`, lines 40-43) and looks for its hints in
 the cleaned string; the argument itself is what it returns when nothing is followed.
 
 `inferTarget c` is the value of the Python variable `target` at line 91 as a function of the
@@ -114,7 +114,7 @@ def httpPrefix : Str := "http://".toList
 
 /-- `CONTROL_CHARS_RE.sub("", url).strip()` — infer_redirection.py:40-43: the string the hints
 are searched in -/
-def cleanUrl (url : Str) : Str := strip (UrlParts.stripControl url)
+def cleanedUrl (url : Str) : Str := strip (UrlParts.stripControl url)
 
 theorem length_rstrip_le (s : Str) : (rstrip s).length ≤ s.length := by
   unfold rstrip
@@ -122,8 +122,8 @@ theorem length_rstrip_le (s : Str) : (rstrip s).length ≤ s.length := by
   exact Nat.le_trans (List.Sublist.length_le (List.dropWhile_sublist _)) (by rw [List.length_reverse]; exact Nat.le_refl _)
 
 /-- cleaning only removes characters -/
-theorem cleanUrl_length_le (url : Str) : (cleanUrl url).length ≤ url.length := by
-  unfold cleanUrl strip lstrip UrlParts.stripControl
+theorem cleanedUrl_length_le (url : Str) : (cleanedUrl url).length ≤ url.length := by
+  unfold cleanedUrl strip lstrip UrlParts.stripControl
   refine Nat.le_trans (length_rstrip_le _) ?_
   exact Nat.le_trans (List.Sublist.length_le (List.dropWhile_sublist _)) (List.length_filter_le _ _)
 
@@ -159,17 +159,17 @@ def inferTarget (url : Str) : Option Str :=
 only when it is strictly shorter than the cleaned url, else return the argument itself —
 infer_redirection.py:40-43, 89-97 -/
 def stepOf (target : Str → Option Str) (url : Str) : Str :=
-  match target (cleanUrl url) with
-  | some t => if t.length < (cleanUrl url).length then t else url
+  match target (cleanedUrl url) with
+  | some t => if t.length < (cleanedUrl url).length then t else url
   | none => url
 
 /-- the recursion of the code for an arbitrary target function -/
 def inferOf (target : Str → Option Str) (url : Str) : Str :=
-  match target (cleanUrl url) with
-  | some t => if t.length < (cleanUrl url).length then inferOf target t else url
+  match target (cleanedUrl url) with
+  | some t => if t.length < (cleanedUrl url).length then inferOf target t else url
   | none => url
 termination_by url.length
-decreasing_by exact Nat.lt_of_lt_of_le ‹_› (cleanUrl_length_le url)
+decreasing_by exact Nat.lt_of_lt_of_le ‹_› (cleanedUrl_length_le url)
 
 /-- `infer_redirection(url, recursive=False)` -/
 def inferStep (url : Str) : Str := stepOf inferTarget url
@@ -187,8 +187,8 @@ to `infer` as soon as the fuel is at least the length of the url -/
 def inferFuel (target : Str → Option Str) : Nat → Str → Str
   | 0, url => url
   | fuel + 1, url =>
-    match target (cleanUrl url) with
-    | some t => if t.length < (cleanUrl url).length then inferFuel target fuel t else url
+    match target (cleanedUrl url) with
+    | some t => if t.length < (cleanedUrl url).length then inferFuel target fuel t else url
     | none => url
 
 end Ural
